@@ -109,7 +109,7 @@ theorem span_on_view (L s e : Int) (hL : 0 < L) (hse : s < e) :
     ∃ m, clipLocate L (s, e) = .ok m ∧
       realSpans m = (if max s 0 < min e L then [(max s 0, min e L)] else []) ∧
       (∀ a b, MSpan.span a b ∈ m → 0 ≤ a ∧ a ≤ b ∧ b ≤ L) :=
-  clipLocate_exact L s e hL hse
+  clipLocate_exact L s e hL (Int.le_of_lt hse)
 
 example : clipLocate 5 (-2, 9) = .ok [.span 0 5, .lost 4] ∧ clipLocate 5 (3, 9) = .ok [.span 3 5] ∧
     clipLocate 5 (7, 9) = .ok [] ∧ clipLocate 5 (-1, 0) = .ok [] ∧ clipLocate 5 (5, 8) = .ok [] := by decide
@@ -120,7 +120,7 @@ view (inside, straddling, touching, outside), forward or reverse complemented. -
 theorem no_raise_partial_feature (L : Int) (rced minus : Bool) (spans : List (Int × Int)) (hL : 0 < L)
     (hsp : ∀ sp ∈ spans, sp.1 < sp.2) (hsorted : spans.Pairwise (fun a b => a.1 ≤ b.1)) :
     ∃ f, makeFeature L rced minus spans = .ok f := by
-  obtain ⟨f, hf, _⟩ := makeFeature_spec L rced minus spans hL hsp hsorted
+  obtain ⟨f, hf, _⟩ := makeFeature_spec L rced minus spans hL (fun sp h => Int.le_of_lt (hsp sp h)) hsorted
   exact ⟨f, hf⟩
 
 -- the former counterexample (a span ending exactly at the view start) is now a feature
